@@ -6,7 +6,7 @@ set -u
 patch=$(readlink -f "$1"); shift
 scratch=/tmp/mut-eval-$$
 git -C /repo worktree add -q --detach "$scratch" HEAD || exit 2
-cleanup() { git -C /repo worktree remove --force "$scratch" >/dev/null 2>&1; rm -rf /verif/.build/alt-*; git -C /verif clean -fdq replays; }
+cleanup() { git -C /repo worktree remove --force "$scratch" >/dev/null 2>&1; rm -rf "/verif/.build/alt-$(printf %s "$scratch" | sha1sum | cut -c1-10)"; }
 trap cleanup EXIT
 if ! git -C "$scratch" apply "$patch"; then echo "PATCH DOES NOT APPLY"; exit 2; fi
 cd /verif
